@@ -115,8 +115,8 @@ union_f = UFn('union_filters', [Opt, Opt], Opt, 'flax.core.scope.union_filters (
 def _core_entry(tag):
   def call(ex, a, kw):
     ex.ghost[tag + ':n'] = ex.ghost.get(tag + ':n', 0) + 1
-    ex.ghost[tag + ':mutable'] = ex.coerce(kw['mutable'], Opt) if 'mutable' in kw else SV(Opt, Opt.literal('<not given: the core default applies>'))
-    ex.ghost[tag + ':shape'] = len(a) == 1 and set(kw) <= {'mutable'}
+    ex.ghost[tag + ':mutable'] = ex.coerce(kw['mutable'], Opt) if 'mutable' in kw else (ex.coerce(a[1], Opt) if len(a) == 2 else SV(Opt, Opt.literal('<not given: the core default applies>')))
+    ex.ghost[tag + ':shape'] = (len(a) == 1 and set(kw) <= {'mutable'}) or (len(a) == 0 and 'fn' in kw and set(kw) <= {'fn', 'mutable'}) or (len(a) == 2 and not kw)
     return ex.fresh(Opt, 'core_' + tag)
   return call
 
@@ -166,25 +166,32 @@ LModule.attr_hooks = {'__class__': lambda ex, v: ex.fresh(Opt, 'cls')}
 Opt.attrs['__name__'] = (Opt, None)
 
 
-def _scope_method(tag):
+def _scope_method(tag, method):
+  names = [n for n in _scope_params_all(method)]
+
   def call(ex, v, a, kw):
-    star = lambda x: isinstance(x, tuple) and not isinstance(x, PyTuple) and len(x) == 2 and x[0] == '*'
-    plain = [x for x in a if not star(x)]
-    stars = [x[1] for x in a if star(x)]
+    bound, ok = bind_call(names, a, {k: x for k, x in kw.items() if k != 'unbox'})
     ex.ghost[tag + ':n'] = ex.ghost.get(tag + ':n', 0) + 1
     ex.ghost[tag + ':scope'] = v
-    ex.ghost[tag + ':plain'] = PyTuple(plain)
-    ex.ghost[tag + ':shape'] = len(stars) == 1 and a and star(a[-1]) and set(kw) == {'unbox', '**'}
-    ex.ghost[tag + ':args'] = ex.coerce(stars[0], ArgPack) if stars else ex.fresh(ArgPack, 'none')
+    ex.ghost[tag + ':plain'] = PyTuple([bound[n] for n in names if n in bound])
+    ex.ghost[tag + ':shape'] = ok and '*' in bound and '**' in bound and 'unbox' in kw and all(n in bound for n in names)
+    ex.ghost[tag + ':args'] = ex.coerce(bound['*'], ArgPack) if '*' in bound else ex.fresh(ArgPack, 'none')
     ex.ghost[tag + ':unbox'] = kw.get('unbox', False)
-    ex.ghost[tag + ':kwargs'] = ex.coerce(kw['**'], KwPack) if '**' in kw else ex.fresh(KwPack, 'none')
+    ex.ghost[tag + ':kwargs'] = ex.coerce(bound['**'], KwPack) if '**' in bound else ex.fresh(KwPack, 'none')
     r = ex.fresh(Opt, 'r_' + tag)
     ex.ghost[tag + ':result'] = r
     return r
   return call
 
 
-ScopeRef.methods = {'variable': _scope_method('sv'), 'param': _scope_method('sp')}
+def _scope_params_all(method):
+  from pyvc.extract import find_function
+  fnode, _, _ = find_function('flax/core/scope.py', 'Scope.' + method)
+  a = fnode.args
+  return [x.arg for x in a.posonlyargs + a.args][1:]
+
+
+ScopeRef.methods = {'variable': _scope_method('sv', 'variable'), 'param': _scope_method('sp', 'param')}
 LMB = {'Module._name_taken': Handler('Module._name_taken', lambda ex, a, kw: ex.call_value(name_taken, [a[0], a[1], kw['collection']], {}), '_name_taken(name, collection=)'),
        'LinenModule._name_taken': Handler('Module._name_taken', lambda ex, a, kw: ex.call_value(name_taken, [a[0], a[1], kw['collection']], {}), '_name_taken(name, collection=)'),
        'errors.NameInUseError': TypeTag('NameInUseError', (TypeTag('Exception'),))}
@@ -229,12 +236,23 @@ sc_has = UFn('scope_has_variable', [ScopeRef, NameS, NameS], BOOL, 'scope.has_va
 sc_get = UFn('scope_get_variable', [ScopeRef, NameS, NameS], SVal, 'scope.get_variable(col, name)')
 _PUT = Effect('scope.put_variable', [ScopeRef, NameS, NameS, SVal])
 _RES = Effect('scope.reserve', [ScopeRef, NameS, NameS])
+def _by_name(method, target, n):
+  names = _scope_params_all(method)
+
+  def call(ex, v, a, kw):
+    bound, ok = bind_call(names, a, kw)
+    if not ok or any(nm not in bound for nm in names[:n]):
+      raise OutsideSubset(f'scope.{method} called in a form the recorder does not know')
+    return ex.call_value(target, [v] + [bound[nm] for nm in names[:n]], {})
+  return call
+
+
 ScopeRef.methods.update({
-  'is_mutable_collection': lambda ex, v, a, kw: ex.call_value(sc_mut, [v, a[0]], {}),
-  'has_variable': lambda ex, v, a, kw: ex.call_value(sc_has, [v, a[0], a[1]], {}),
-  'get_variable': lambda ex, v, a, kw: ex.call_value(sc_get, [v, a[0], a[1]], {}),
-  'put_variable': lambda ex, v, a, kw: ex.call_value(_PUT, [v, a[0], a[1], a[2]], {}),
-  'reserve': lambda ex, v, a, kw: ex.call_value(_RES, [v, a[0], a[1]], {}),
+  'is_mutable_collection': _by_name('is_mutable_collection', sc_mut, 1),
+  'has_variable': _by_name('has_variable', sc_has, 2),
+  'get_variable': _by_name('get_variable', sc_get, 2),
+  'put_variable': _by_name('put_variable', _PUT, 3),
+  'reserve': _by_name('reserve', _RES, 2),
 })
 MUTC = 'scope_is_mutable_collection(self.scope, col)'
 HAS = 'scope_has_variable(self.scope, col, name)'
@@ -269,13 +287,24 @@ ScopeRef2 = opaque('BoundScope', is_str=False, nullable=True)
 LModule2 = ObjSort('LinenModuleAcc', dict(scope=ScopeRef2))
 
 
+def _scope_params(method):
+  from pyvc.extract import find_function
+  fnode, _, _ = find_function('flax/core/scope.py', 'Scope.' + method)
+  a = fnode.args
+  return [x.arg for x in a.posonlyargs + a.args][1:]
+
+
 def _acc_method(tag):
+  names = _scope_params(tag)
+
   def call(ex, v, a, kw):
+    bound, ok = bind_call(names, a, kw)
     ex.ghost['acc:n'] = ex.ghost.get('acc:n', 0) + 1
     ex.ghost['acc:method'] = Lit(tag)
     ex.ghost['acc:scope'] = v
-    ex.ghost['acc:args'] = PyTuple([ex.coerce(x, Opt) for x in a])
-    ex.ghost['acc:nokw'] = not kw
+    ex.ghost['acc:ok'] = ok
+    for i, nm in enumerate(names):
+      ex.ghost['acc:arg%d' % i] = ex.coerce(bound[nm], Opt) if nm in bound else SV(Opt, Opt.literal('<not given: the default of the scope method applies>'))
     r = ex.fresh(Opt, 'r_' + tag)
     ex.ghost['acc:result'] = r
     return r
@@ -287,6 +316,6 @@ for _m, _ps, _sm, _props in _ACCESSORS:
   function(
     F + '::Module.' + _m, params=[('self', LModule2)] + [(p, Opt) for p in _ps], returns=Opt,
     raises={'ValueError': 'self.scope is None'},
-    ensures=["ghost('acc:n') == 1 and ghost('acc:nokw') and ghost('acc:scope') == self.scope", f"ghost('acc:method') == '{_sm}'",
-             f"len(ghost('acc:args')) == {len(_ps)}"] + [f"ghost('acc:args')[{i}] == {p}" for i, p in enumerate(_ps)] + (["result == ghost('acc:result')"] if _m != 'put_variable' else []),
+    ensures=["ghost('acc:n') == 1 and ghost('acc:ok') and ghost('acc:scope') == self.scope", f"ghost('acc:method') == '{_sm}'"]
+            + [f"ghost('acc:arg{i}') == {p}" for i, p in enumerate(_ps)] + (["result == ghost('acc:result')"] if _m != 'put_variable' else []),
     modifies=[], props=_props)
